@@ -20,6 +20,7 @@ import JsonV.Lemmas.QuoteSpan
 import JsonV.Lemmas.QuoteJString
 import JsonV.Lemmas.QuoteReformat
 import JsonV.Lemmas.GlueNameKey
+import JsonV.Lemmas.GlueEncQuote
 import JsonV.Gen.Lits
 
 namespace JsonV.Props.C11
@@ -336,6 +337,22 @@ theorem quote_is_jstring (f : QFlags) (v : Bool) (s : Bytes) : JsonV.Spec.Gramma
 theorem quote_consumed (v : Bool) (f : QFlags) (s : Bytes) :
     ∃ nc, consumeString v (appendQuote f s).1 = ((appendQuote f s).1.length, Err.ok, nc) :=
   JsonV.Lemmas.QuoteJString.consumeString_appendQuote v f s
+
+/-! #### the Encoder model's own quote / unquote (slice sm, Model/Encoder.lean) -/
+
+open JsonV.Lemmas.GlueEncQuote in
+/-- The Encoder model's AppendQuote is this slice's AppendQuote: output and error flag, every option set and input. -/
+theorem enc_appendQuote_eq (o : JsonV.Model.Encoder.Opts) (s : Bytes) :
+    JsonV.Model.Encoder.appendQuote o s =
+      ((appendQuote (flagsOf o) s).1, decide ((appendQuote (flagsOf o) s).2 = Err.invalidUTF8)) :=
+  JsonV.Lemmas.GlueEncQuote.appendQuote_eq o s
+
+open JsonV.Lemmas.GlueEncQuote in
+/-- The Encoder model's `unquote` of a quoted string is the lossy input = this slice's AppendUnquote of it. -/
+theorem enc_unquote_appendQuote (o : JsonV.Model.Encoder.Opts) (s : Bytes) :
+    JsonV.Model.Encoder.unquote (JsonV.Model.Encoder.appendQuote o s).1 = lossy s ∧
+    JsonV.Model.Encoder.unquote (JsonV.Model.Encoder.appendQuote o s).1 = (appendUnquote (appendQuote (flagsOf o) s).1).1 :=
+  JsonV.Lemmas.GlueEncQuote.unquote_appendQuote o s
 
 /-! #### name keys (C01 `nameKey` / C12 `Fmt.nameKey`) -/
 
